@@ -54,6 +54,12 @@ def generate(rng, tier, shard, nshards):
             w = gen.wcs_spec(rng, conformal=True, scale=sc, crval=(rng.choice([rng.uniform(0, 360), 0.0, 1e-3]), rng.uniform(-100, 100) * sc))
         else:
             w = gen.wcs_spec(rng, conformal=True)
+        if not equator and rng.random() < 0.06:
+            # the large, coarse corner of the domain: 40-50 px shapes on 6e-3 .. 1e-2 deg/px images (axes of 15-30 arcmin)
+            w = gen.wcs_spec(rng, conformal=True, scale=rng.uniform(6e-3, 1e-2))
+            big_corner = True
+        else:
+            big_corner = False
         near_pole = None
         if not equator and rng.random() < 0.04:
             # a region given in Galactic coordinates within an arcsecond of the north Galactic pole, on an equatorial image of that field
@@ -70,7 +76,7 @@ def generate(rng, tier, shard, nshards):
         ratio = rng.uniform(1.25, 4.0) if rng.random() < 0.85 else rng.uniform(8.0, 40.0)
         a_px = rng.uniform(1, 50) if ratio < 8 else rng.uniform(ratio, 50)
         yield {'lane': cls, 'cls': cls, 'wcs': w, 'dx': rng.uniform(-300, 300), 'dy': rng.uniform(-300, 300),
-               'a_px': a_px, 'ratio': ratio, 'wide': rng.random() < 0.5,
+               'a_px': (rng.uniform(40, 50) if big_corner else a_px), 'ratio': ratio, 'wide': rng.random() < 0.5,
                'inner': rng.uniform(0.2, 0.8), 'angle_deg': ang, 'angle_unit': unit, 'size_unit': rng.choice(['arcsec', 'arcmin', 'deg']),
                'size_unit2': rng.choice(['arcsec', 'arcmin', 'deg', 'mas']),
                'other_frame': (rng.choice([f for f in ('icrs', 'galactic', 'fk5', 'fk4') if f != w['frame']])
